@@ -1,3 +1,6 @@
-From Coq Require Import Extraction ExtrOcamlBasic.
-From V Require Import Base.Tree C04.Spec.
+From Coq Require Import Extraction ExtrOcamlBasic ZArith.
+From V Require Import Base.Tree C04.Spec C04.PkgLeg.
+(* fn 1,2,3,4,9: value level (C04/Spec.v); fn 20,21,22: package leg (C04/PkgLeg.v) *)
+Definition run := run_all.
+Definition spec := spec_all.
 Extraction "model.ml" run spec.
